@@ -192,6 +192,27 @@ def run(ctx):
                 continue
             sets_ = [c_.comparators[0].id for c_ in ast.walk(par.test) if isinstance(c_, ast.Compare) and len(c_.ops) == 1 and isinstance(c_.ops[0], (ast.In, ast.NotIn)) and isinstance(c_.comparators[0], ast.Name) and norm(c_.left) == node]
             verdict, why = "unknown", "a node is skipped before its 3-node hyperedges were examined; the condition was not recognised"
+
+            def kinds_of_test(e, depth=0):
+                out = set()
+                for x in ast.walk(e):
+                    if isinstance(x, ast.Call) and isinstance(x.func, ast.Attribute) and x.func.attr in ("get_neighbors", "get_incident_edges"):
+                        kw_ = {k.arg: k.value for k in x.keywords}
+                        o_, s_ = kw_.get("order"), kw_.get("size")
+                        pair = (isinstance(o_, ast.Constant) and o_.value == 1) or (isinstance(s_, ast.Constant) and s_.value == 2)
+                        out.add("pairwise" if pair else "wider")
+                    if isinstance(x, ast.Name) and depth < 3 and x.id not in (node,):
+                        r_ = v.resolve(x)
+                        if r_ is x and depth == 0:
+                            r2 = v.reaching(x)  # a name with several definitions: the one that reaches the test
+                            r_ = r2 if r2 is not None else x
+                        if r_ is not x:
+                            out |= kinds_of_test(r_, depth + 1)
+                return out
+
+            ks0 = kinds_of_test(par.test)
+            if ks0 == {"pairwise"} and not sets_:
+                verdict, why = "violation", f"a susceptible node is passed over when `{norm(par.test)[:60]}` - a test of its PAIRWISE neighbourhood (order 1) only - before the three-body attempt: a node that sits in 3-node hyperedges but in no pair, or whose pairwise neighbours are all healthy, is never infected through its triangles"
             for sname in sets_:
                 srcs = []
                 for g_ in walk_no_nested(v.fi.node):
